@@ -8,6 +8,7 @@
   incompatible batch dimensions are refused (`C05_refuses_inner`, `C05_refuses_leading`).
 -/
 import CorgiProofs.Matmul
+import CorgiProofs.ConvAt
 
 set_option linter.unusedSectionVars false
 
@@ -110,8 +111,20 @@ example : (⟨[2, 1, 2, 3], List.replicate 12 (1 : Int)⟩ : Tensor Int).WF := b
   refine ⟨by decide, by decide⟩
 example : (if true then 2 else 3) = (if false then 5 else 2) := by decide
 
+/-- **Single elements at any size.**  The `matmulat` command of the correspondence check (the implementation
+    computes the whole product and indexes it; the model evaluates only `matmulElem`, the specification's
+    sum at that index) compares the implementation with the model's own `matmul`: for well-formed operands of
+    rank ≥ 2 (compatible batch dimensions, agreeing inner dimensions, no additive term or a bias row) and every
+    in-range index, indexing the model's result gives exactly `matmulElem` — at matrix sizes where building
+    the model's whole result is out of reach. -/
+theorem C05_matmulat [BEq S] (a b : Tensor S) (ta tb : Bool) (c : Option (Tensor S)) (i : List Nat)
+    (hv : matmulValidB a ta b tb c = true) (hi : inRange (matmulOutDims a ta b tb) i = true) :
+    ∃ t, matmul a ta b tb c = .ok t ∧ t.index i = .ok (matmulElem a ta b tb c i) :=
+  matmulat_spec a b ta tb c i hv hi
+
 end Corgi
 
+#print axioms Corgi.C05_matmulat
 #print axioms Corgi.C05_entry
 #print axioms Corgi.C05_product
 #print axioms Corgi.C05_bias
